@@ -89,6 +89,16 @@ def run(ctx):
                     chk.instance("C17/R2", "no pipeline / response value is leaked", name, x.loc(), holds=False,
                                  key="C17/R2 leak-in %s" % T.strip_generics(name))
     r3_stateless(chk, fx)
+    r4_agent_evaluates_each_on_its_own(chk, fx)
+
+
+def r4_agent_evaluates_each_on_its_own(chk, fx):
+    """On the agent's side the same independence: whether and how a candidate is evaluated must not depend on what happened to the
+    candidates before it (a 'connection lost' flag, a failure budget carried from one to the next).  C03/R2 / C15/R1's decision on
+    Policies::evaluate — every candidate is mapped to its own evaluation, with the closure's mutable captures unknown at each call."""
+    from . import c03
+    from .c15 import _Rename
+    c03.r2_eval(_Rename(chk, "C03/R2", "C17/R4"), fx)
 
 
 def r3_stateless(chk, fx):
